@@ -3,7 +3,10 @@
 (* representable input, or a module reducer on a scaled integer vector; the laws of the property are invariants of  *)
 (* the specification, and each case is printed with the value the specification assigns so that the replayer can   *)
 (* put the same question to the real NodeActivators and compare.  The registry itself is built step by step        *)
-(* (kind "reg") so that the one-to-one invariant is checked after every Register call.                            *)
+(* (kind "reg") so that the one-to-one invariant is checked after every Register call.  Kind "factory" is a short    *)
+(* behaviour over several factories: default; new private P (2); new private Q (3); one extra registration g on P;  *)
+(* new R (4) - with "only P changed" as invariant of every step and the observable answers of an untouched and of   *)
+(* the customised registry printed for the replayer.                                                               *)
 EXTENDS Activations, TLC, Json, SequencesExt
 CONSTANTS TypeCodes,        \* type codes asked for (NodeActivationType is a byte: 0..255 is every possible value)
           ProbeNames,       \* names that are not registered
@@ -11,7 +14,8 @@ CONSTANTS TypeCodes,        \* type codes asked for (NodeActivationType is a byt
           FineM,            \* and b +- m / 4096 for m in 1..FineM around the breakpoints b = -4, -1, 1, 4
           BigExps, TinyExps, \* inputs +-2^j for j in BigExps (j >= 4) and in TinyExps (j < -G)
           Vals, MaxLen, Scales, ProdScales,  \* module vectors over Vals of length 1..MaxLen, elements scaled by 2^s
-          FirstSeed         \* TRUE: reducers as they should be; FALSE: extremum seeds of the code as found (F6)
+          FirstSeed,        \* TRUE: reducers as they should be; FALSE: extremum seeds of the code as found (F6)
+          FreshMaps         \* TRUE: NewNodeActivatorsFactory builds its own maps; FALSE: it shares the default factory's
 VARIABLES kind, c, emitted
 vars == <<kind, c, emitted>>
 
@@ -39,6 +43,17 @@ ASSUME ApproxContinuous(4, 5) /\ ApproxContinuous(1, 1)
 ASSUME \A j \in BigExps : j >= 4 /\ j <= 996
 ASSUME \A j \in TinyExps : j < -G /\ j >= -1074
 ASSUME G <= 12 /\ XMax <= 16 /\ XMax > 4 /\ FineM * Pow2(G) < 4096
+
+\* the single extra registrations applied to a private factory: new / existing scalar / existing module type code x
+\* same / other existing / new name x scalar or module function (user functions "cube" and "sum")
+ExtraRegs == { [type |-> t, name |-> n, kind |-> k, impl |-> IF k = "scalar" THEN "cube" ELSE "sum"] :
+                 t \in {1, 14, 22, 100}, n \in {"SigmoidPlainActivation", "MaxModuleActivation", "CubeActivation"},
+                 k \in {"scalar", "module"} }
+ObsTypes == <<0, 1, 14, 22, 100>>
+ObsNames == <<"SigmoidPlainActivation", "LinearActivation", "MaxModuleActivation", "CubeActivation">>
+Obs(r) == [types |-> [i \in DOMAIN ObsTypes |-> TypeObs(r, ObsTypes[i])],
+           names |-> [i \in DOMAIN ObsNames |-> NameObs(r, ObsNames[i])]]
+Private == 2
 
 \* all inputs in ascending order
 Asc(S) == SetToSortSeq(S, <)
@@ -69,6 +84,7 @@ Init == /\ emitted = FALSE
            \/ kind = "name" /\ c \in RegisteredNames \cup ProbeNames
            \/ kind = "scalar" /\ c \in { p \in [fn : ExactNames, xi : 1..NX] : ExactDomain(p.fn, XSeq[p.xi]) }
            \/ kind = "module" /\ \E op \in ModuleNames : c \in [op : {op}, v : Vectors, s : ScalesOf(op)]
+           \/ kind = "factory" /\ \E g \in ExtraRegs : c = [g |-> g, s |-> FacInit, pc |-> 0]
 
 CaseOf ==
     CASE kind = "bytype" ->
@@ -83,10 +99,18 @@ CaseOf ==
       [] kind = "module" ->
             LET y == ModuleResult(c.op, c.v, c.s) IN
             [kind |-> kind, op |-> c.op, t |-> TypeOfName(c.op), v |-> c.v, s |-> c.s, yn |-> y.n, ye |-> y.e]
+      [] kind = "factory" ->
+            [kind |-> kind, g |-> c.g, untouched |-> Obs(FacView(c.s, 1)), private |-> Obs(FacView(c.s, Private))]
 
 RegStep == kind = "reg" /\ c < Len(Registrations) /\ c' = c + 1 /\ UNCHANGED <<kind, emitted>>
-Emit == kind # "reg" /\ ~emitted /\ emitted' = TRUE /\ PrintT(ToJson(CaseOf)) /\ UNCHANGED <<kind, c>>
-Next == RegStep \/ Emit
+\* NewNodeActivatorsFactory (pc 0, 1, 3) and Register / RegisterModule on the private factory (pc 2)
+FacStep == /\ kind = "factory" /\ c.pc < 4
+           /\ c' = [c EXCEPT !.pc = @ + 1,
+                             !.s = IF c.pc = 2 THEN FacRegister(@, Private, c.g) ELSE FacNew(@, FreshMaps)]
+           /\ UNCHANGED <<kind, emitted>>
+Emit == /\ kind # "reg" /\ (kind = "factory" => c.pc = 4) /\ ~emitted
+        /\ emitted' = TRUE /\ PrintT(ToJson(CaseOf)) /\ UNCHANGED <<kind, c>>
+Next == RegStep \/ FacStep \/ Emit
 Spec == Init /\ [][Next]_vars
 
 (* ---- C18, registry ---- *)
@@ -102,6 +126,13 @@ NameRoundTrip == kind = "name" =>
     LET ty == TypeFromName(FinalReg, c) IN
     IF c \in RegisteredNames THEN ty.ok /\ NameFromType(FinalReg, ty.type) = [ok |-> TRUE, name |-> c] ELSE ~ty.ok
 ASSUME AllTypesProbed == RegisteredTypes \subseteq TypeCodes
+
+\* a registry is per factory: whatever was registered with the private factory, every other factory (the default one,
+\* one created before and one created after the registration) still is the registry of NewNodeActivatorsFactory
+FactoryIndependent == kind = "factory" =>
+    \A f \in DOMAIN c.s.fac :
+        FacView(c.s, f) = IF f = Private /\ c.pc >= 3 THEN Register(NewFactory, c.g) ELSE NewFactory
+FactoryStepLaw == [][kind = "factory" /\ c.pc = 2 /\ c'.pc = 3 => OthersUnchanged(c.s, c'.s, Private)]_vars
 
 (* ---- C18, exactly representable activations ---- *)
 ScalarInRange == kind = "scalar" => InRangeD(c.fn, ExactApply(c.fn, XSeq[c.xi]))
